@@ -185,6 +185,34 @@ def run_gate(spec):
                 msg=f"{estimator} alphas={alphas} with {max(nmin, 1)} reporting units (its minimum) on a client that "
                     f"earlier ran nonparametric [0.95] with {first_n} units: {info['type']}: {info['msg']}",
                 witness=dict(exc=info)))
+    # start of the night: no expected unit reaches the model at all (0 is below every minimum => dedicated error)
+    el_c, feed_c, call_c, _ = clean_case(spec, estimator, max(nmin, 1) + 2, alphas, salt=70)
+    stray = feed_c.iloc[0:2].copy()
+    stray["geographic_unit_fips"] = [f"{str(x)[:2]}999_9{j}" for j, x in enumerate(stray["geographic_unit_fips"])]
+    all_states = sorted(set(el_c.pre.postal_code.astype(str)))
+    nothing = {
+        "empty-frame": (feed_c.iloc[0:0].copy(), {}, {}),
+        "header-only-lists": (feed_c.iloc[0:0].copy(), dict(feed_as_lists=True), {}),
+        "only-unexpected-units": (stray, {}, {}),
+        "every-state-blocklisted": (feed_c, {}, dict(postal_code_blocklist=all_states)),
+        "empty-frame-zero-policy": (feed_c.iloc[0:0].copy(), dict(handle_unreporting="zero"), {}),
+    }
+    for name, (f_, extra_call, extra_mp) in nothing.items():
+        c_ = dict(call_c, **extra_call)
+        c_["model_parameters"] = dict(call_c["model_parameters"], **extra_mp)
+        with harness.patched() as p:
+            harness.fast_boot_sigma(p, 100)
+            _, exc_n = harness.run_estimates(el_c, f_, c_)
+        out["counters"]["gate_nothing_runs"] = out["counters"].get("gate_nothing_runs", 0) + 1
+        outcome = "ok" if exc_n is None else type(exc_n).__name__
+        if not (exc_n is not None and type(exc_n) is cm.ModelNotEnoughSubunitsException):
+            info = harness.exc_info(exc_n)
+            out["violations"].append(dict(
+                key=f"C14/gate/no-modelled-unit/{name}/{outcome}",
+                msg=f"{estimator} alphas={alphas}, {name}: no unit reaches the model (0 < minimum {nmin}); expected "
+                    f"ModelNotEnoughSubunitsException, got {outcome}" + (f": {info['msg']} at {info['where']}" if info else ""),
+                witness=dict(exc=info)))
+        out["sigs"].append(["gate-nothing", estimator, name, outcome])
     out["nontrivial"] = True
     if spec["i"] % 9 == 0:
         out["sample"] = dict(part="gate", estimator=estimator, alphas=alphas, minimum=nmin, judged=out["sigs"])
